@@ -287,6 +287,12 @@ func VerifC13Precedence() {
 		return &c13RT{id: id, resp: &http.Response{StatusCode: 200, Status: "200 OK", Header: http.Header{"Content-Type": {"application/json"}}, Body: &c13BodyT{}}}
 	}
 	trRuntime, trClient, trOp := mk("runtime-transport"), mk("runtime-client"), mk("operation-client")
+	// an operation client may have no transport of its own (only a jar, a redirect
+	// policy, a timeout): its requests travel over http.DefaultTransport
+	trDefault := mk("default-transport")
+	oldDefault := http.DefaultTransport
+	http.DefaultTransport = trDefault
+	defer func() { http.DefaultTransport = oldDefault }()
 	var rt *Runtime
 	withRtClient := zv.Choose("runtime-client", 2) == 1
 	if withRtClient {
@@ -314,29 +320,35 @@ func VerifC13Precedence() {
 				return nil
 			}),
 			Reader: runtime.ClientResponseReaderFunc(func(r runtime.ClientResponse, c runtime.Consumer) (interface{}, error) { return nil, nil })}
-		withOpClient := zv.Choose("operation-client", 2) == 1
-		if withOpClient {
+		opClientKind := zv.Choose("operation-client", 3) // none / with its own transport / without transport
+		withOpClient := opClientKind != 0
+		switch opClientKind {
+		case 1:
 			op.Client = &http.Client{Transport: trOp}
+		case 2:
+			op.Client = &http.Client{}
 		}
 		withOpCtx := zv.Choose("operation-context", 2) == 1
 		if withOpCtx {
 			op.Context = context.WithValue(context.Background(), c13Key, "operation")
 		}
-		before := [3]int{trRuntime.calls, trClient.calls, trOp.calls}
+		before := [3]int{trRuntime.calls, trClient.calls, trOp.calls + trDefault.calls}
 		_, err := rt.Submit(op)
 		zv.Assert("call-succeeds", err == nil)
 		var used *c13RT
 		var usedBefore int
 		switch {
+		case opClientKind == 2:
+			used, usedBefore = trDefault, before[2]-trOp.calls
 		case withOpClient:
-			used, usedBefore = trOp, before[2]
+			used, usedBefore = trOp, before[2]-trDefault.calls
 		case withRtClient:
 			used, usedBefore = trClient, before[1]
 		default:
 			used, usedBefore = trRuntime, before[0]
 		}
 		zv.Reach("submitted")
-		zv.Assert("exactly-one-request-sent", trRuntime.calls+trClient.calls+trOp.calls == before[0]+before[1]+before[2]+1)
+		zv.Assert("exactly-one-request-sent", trRuntime.calls+trClient.calls+trOp.calls+trDefault.calls == before[0]+before[1]+before[2]+1)
 		zv.Assert("per-operation-client-wins-then-runtime-client", used.calls == usedBefore+1)
 		switch {
 		case withOpCtx:
